@@ -68,6 +68,9 @@ func fnExec(ctx *cmdContext, args map[string]any) (output respValue, err error) 
 
 	// check the watches; if anything has changed, return null
 	if isAbortedExecUnlocked(ctx.cs) {
+		// an aborted EXEC also ends the transaction
+		ctx.cs.watches = map[watchKey]uint64{}
+		ctx.cs.cmdQueue = nil
 		return
 	}
 
